@@ -987,3 +987,8 @@ func whitespaceLists() [][]string {
 	}
 	return out
 }
+
+// specialWords: words with a meaning in SPDX documents, package metadata or programming that are no license ids
+var specialWords = []string{"NONE", "NOASSERTION", "none", "noassertion", "NoAssertion", "UNLICENSED", "UNKNOWN", "unknown", "Proprietary",
+	"Commercial", "Public-Domain", "PublicDomain", "SEE-LICENSE-IN-LICENSE", "null", "nil", "undefined", "true", "N-A", "TBD", "ANY", "ALL", "*",
+	"LicenseRef", "DocumentRef", "licenseref-", "WITH", "AND", "OR", "NOT", "and", "or", "with", "-", ".", "-only", "-or-later", "+"}
